@@ -172,7 +172,7 @@ func (cl call) denoted() []xml.Token {
 	case "sendel":
 		out := append([]xml.Token{*cl.start}, cl.toks...)
 		return append(out, cl.start.End())
-	case "encel":
+	case "encel", "replyel":
 		out := append([]xml.Token(nil), cl.toks...)
 		depth := 0
 		for i, t := range out {
@@ -352,8 +352,10 @@ func execReply(cfg cfgT, cl call) (status string, wire []byte) {
 		}
 		var err error
 		p := common.Recover(func() {
-			switch cl.form {
-			case "reader":
+			switch {
+			case cl.entry == "replyel":
+				err = t.EncodeElement(cl.value(), *cl.start)
+			case cl.form == "reader":
 				for _, tok := range cl.toks {
 					if err = t.EncodeToken(xml.CopyToken(tok)); err != nil {
 						break
@@ -462,7 +464,7 @@ func (c *ctxT) check(cfg cfgT, cl call, status string, wire []byte, lines []stri
 	for i := range els {
 		if ok, why := sameElement(els[i], expEls[i]); !ok {
 			clause := "exact-element"
-			if cl.entry == "encel" || cl.entry == "sendel" {
+			if cl.entry == "encel" || cl.entry == "replyel" || cl.entry == "sendel" {
 				if s, ok := els[i][0].(xml.StartElement); ok {
 					if e, ok := expEls[i][0].(xml.StartElement); ok && s.Name != e.Name {
 						clause = "start-outermost"
@@ -491,7 +493,7 @@ func (c *ctxT) one(cfg cfgT, cl call, class string) {
 	var status string
 	var wire, late []byte
 	saved := cl.copyArgs()
-	if cl.entry == "reply" {
+	if cl.entry == "reply" || cl.entry == "replyel" {
 		status, wire = execReply(cfg, cl)
 	} else {
 		rs := c.session(cfg)
@@ -515,7 +517,7 @@ func (c *ctxT) one(cfg cfgT, cl call, class string) {
 	}
 	c.failed = false
 	formClass := strings.SplitN(cl.form, ":", 2)[0]
-	if cl.entry != "reply" && status == "ok" {
+	if cl.entry != "reply" && cl.entry != "replyel" && status == "ok" {
 		r.Line(fmt.Sprintf("flush %s %s", cl.entry, formClass), common.B(len(late) == 0))
 		if len(late) != 0 {
 			c.fail("flushed", cl.entry+"/"+formClass, lines, fmt.Sprintf("the call returned nil with %d of %d bytes of its element still in the encoder's buffer", len(late), len(late)+len(wire)))
@@ -536,7 +538,7 @@ func (c *ctxT) one(cfg cfgT, cl call, class string) {
 var forms = []string{"reader", "marshaler", "writerto"}
 
 func (c *ctxT) genCall(rnd *common.Rand, big int) call {
-	entry := pickS(rnd, []string{"send", "send", "sendel", "enc", "enc", "encel", "encel", "tw", "iq", "msg", "pres", "reply"})
+	entry := pickS(rnd, []string{"send", "send", "sendel", "enc", "enc", "encel", "encel", "tw", "iq", "msg", "pres", "reply", "replyel"})
 	cl := call{entry: entry, form: "reader"}
 	switch entry {
 	case "send", "tw":
@@ -564,10 +566,10 @@ func (c *ctxT) genCall(rnd *common.Rand, big int) call {
 				big = 0
 			}
 		}
-	case "enc", "encel", "reply":
+	case "enc", "encel", "reply", "replyel":
 		if rnd.Chance(1, 3) {
 			k := rnd.Intn(len(structPool))
-			if entry == "encel" {
+			if entry == "encel" || entry == "replyel" {
 				k = rnd.Intn(8) // values whose children carry their own namespace
 			}
 			cl.form = "struct:" + strconv.Itoa(k)
@@ -576,7 +578,7 @@ func (c *ctxT) genCall(rnd *common.Rand, big int) call {
 			cl.form = forms[rnd.Intn(len(forms))]
 			cl.toks = genElement(rnd, 0, true, big)
 		}
-		if entry == "encel" {
+		if entry == "encel" || entry == "replyel" {
 			name := genName(rnd, true)
 			st := xml.StartElement{Name: name, Attr: genAttrs(rnd, name, true)}
 			if strings.HasPrefix(cl.form, "struct:") {
@@ -687,7 +689,7 @@ func (c *ctxT) concurrent(cfg cfgT, rnd *common.Rand, nG, nK int, caseNo int) {
 					big = 3000 + rnd.Intn(9000)
 				}
 				cl = c.genCall(rnd, big)
-				if cl.entry == "reply" || strings.HasPrefix(cl.form, "struct:") {
+				if cl.entry == "reply" || cl.entry == "replyel" || strings.HasPrefix(cl.form, "struct:") {
 					continue
 				}
 				if loc, ok := map[string]string{"iq": "iq", "msg": "message", "pres": "presence"}[cl.entry]; ok {
@@ -1017,6 +1019,10 @@ func Run(r *common.Run) error {
 				c.cross(n, []string{"enc", "iq", "enc"})
 				c.cross(n, []string{"iq", "enc"})
 			}
+		case scenario == "auto-reply":
+			for _, cfg := range cfgs {
+				c.autoReply(cfg)
+			}
 		case scenario == "same-start-twice":
 			for _, cfg := range cfgs {
 				c.sameStartTwice(cfg)
@@ -1040,6 +1046,9 @@ func Run(r *common.Run) error {
 			if i%3 == 0 {
 				c.multiSession(r.Rnd, i)
 			}
+			if i%10 == 0 {
+				c.autoReply(cfgs[i%2])
+			}
 		}
 		return nil
 	}
@@ -1052,6 +1061,8 @@ func Run(r *common.Run) error {
 	for _, cfg := range cfgs {
 		c.flushCorpus(cfg)
 		c.faultCorpus(cfg)
+		c.spellingCorpus(cfg)
+		c.autoReply(cfg)
 	}
 	for _, cfg := range cfgs {
 		c.sameStartTwice(cfg)
